@@ -84,6 +84,7 @@ def load_specs():
     for fn in sorted(os.listdir(d)):
         if fn.endswith(".py"):
             path = os.path.join(d, fn)
+            env["__file__"] = path
             exec(compile(open(path).read(), path, "exec"), env)
     for k in ("forall", "exists", "implies", "iff", "ite", "bxor", "sub", "file_content", "file_pos", "fits_bytes", "aes_enc", "aes_dec",
               "hmac_sha256", "sha256", "rsa_ok", "rsa_pt", "rsa_k", "keypair", "xview", "same", "dlog", "url_path", "url_query", "url_ok", "qsl", "ws_split", "is_response", "is_request", "enum_tag", "snapshot", "snapshots", "is_int", "is_true", "is_bytes", "is_str", "as_int", "as_bytes", "as_str", "hex_of"):
